@@ -39,9 +39,13 @@ def refused_params_line(cfg, sid):
     return 'params %d 5 3 2 0 0 0' % sid
 
 def decoder_case(name, cfg, order, api='stream', finish=True, cb='none', trace=False, sid=0, role=2,
-                 matrix=False, early_release=None, finish_twice=False, cb_first=False, refused_first=False):
+                 matrix=False, early_release=None, finish_twice=False, cb_first=None, refused_first=None):
     """one decoder session: submit `order` (list of ESIs, duplicates allowed) through `api`; `cb_first`: the callback is registered
     before the parameters are set; `refused_first`: a configuration the codec refuses is tried first on the same session"""
+    import zlib
+    h = zlib.crc32(name.encode())
+    if cb_first is None: cb_first = (h % 3 == 0)              # a third of the sessions register their callback before the parameters
+    if refused_first is None: refused_first = (h % 7 == 1)    # one in seven is first given a configuration its codec refuses
     b = ['new %d %d %d' % (sid, cfg.codec, role)]
     if refused_first:
         b.append(refused_params_line(cfg, sid))
